@@ -84,6 +84,111 @@ theorem one_member_per_field_plus_typename (fo : Bool) (n : List Char)
 theorem interfaces_are_bases (fo : Bool) (n : List Char) (fs : List (List Char × GType))
     (is : List (List Char)) : (parseObjectLike fo n fs is).bases = is := rfl
 
+/-! ### a type that implements several interfaces: whose declaration of a member counts -/
+
+/-- A GraphQL type has to declare every field of the interfaces it implements, and `parse_object_like`
+writes one member for EVERY field of the type. So whatever the classes of the interfaces declare for a
+member of the same name (another nullability, another list nesting: legal GraphQL as long as the type's
+field is a subtype of each), in whatever order they appear among the bases, the member the class ends up
+with is the type's OWN: it never depends on which base Python's MRO (first wins) or a merged table of
+inherited fields (`dict.update`: last wins) would pick. -/
+theorem own_declaration_wins (fo : Bool) (n : List Char) (fs : List (List Char × GType))
+    (is : List (List Char)) (mro : List (List Member)) (f : List Char) (t : GType)
+    (hmem : (f, t) ∈ fs) (hnd : (fs.map (·.1)).Nodup) :
+    resolveMember (parseObjectLike fo n fs is).members mro f = some (.field f (parseField fo t)) := by
+  simp only [resolveMember, parseObjectLike]
+  rw [lookup_own_field fo fs f t hmem hnd]
+
+/-- …hence a member is required exactly when the type's OWN field is non-null, whatever the
+interfaces say about a field of that name. -/
+theorem own_field_required_iff_nonnull (n : List Char) (fs : List (List Char × GType))
+    (is : List (List Char)) (mro : List (List Member)) (f : List Char) (t : GType)
+    (hmem : (f, t) ∈ fs) (hnd : (fs.map (·.1)).Nodup) :
+    ∃ ir, resolveMember (parseObjectLike false n fs is).members mro f = some (.field f ir) ∧
+      ir.required = t.isNonNull ∧ (t.wf = true → rebuild ir = t) :=
+  ⟨parseField false t, own_declaration_wins false n fs is mro f t hmem hnd, required_iff_nonnull t,
+    wrappers_roundtrip t⟩
+
+/-- A member the class does NOT declare comes from the first base along the MRO that declares it. -/
+theorem undeclared_member_from_first_base (own : List Member) (mro : List (List Member)) (f : List Char)
+    (h : lookupMember own f = none) :
+    resolveMember own mro f = mro.findSome? (fun ms => lookupMember ms f) := by
+  simp [resolveMember, h]
+
+/-- non-vacuity, and why leaving a member out "because a base declares it identically" is unsound when
+two bases disagree: `interface A { f: String }`, `interface B { f: String! }`,
+`type T implements A & B { f: String! }` — with its own member, `T.f` is required; without it the
+member is `A`'s (first base), which is not required, although `B`'s (last base) is identical to `T`'s -/
+example :
+    let s : GType := .named "String".toList
+    let a := (parseObjectLike false "A".toList [("f".toList, s)] []).members
+    let b := (parseObjectLike false "B".toList [("f".toList, .nonNull s)] []).members
+    let t := (parseObjectLike false "T".toList [("f".toList, .nonNull s)] ["A".toList, "B".toList]).members
+    resolveMember t [a, b] "f".toList = some (.field "f".toList (parseField false (.nonNull s))) ∧
+    resolveMember [.typename "T".toList] [a, b] "f".toList = some (.field "f".toList (parseField false s)) ∧
+    lookupMember b "f".toList = lookupMember t "f".toList ∧
+    (parseField false s).required = false ∧ (parseField false (.nonNull s)).required = true := by
+  decide
+
+/-! ### default values of input fields -/
+
+/-- The default value of an input field reaches the member UNCHANGED, for every value graphql-core can
+hand over — the falsy ones (`0`, `0.0`, `false`, `""`, `[]`, `{}`) like any other; and it does not
+touch what is derived from the field's type. -/
+theorem input_default_preserved (fo : Bool) (t : GType) (v : PyVal) :
+    (parseFieldD fo true t (.value v)).default = v ∧
+    (parseFieldD fo true t (.value v)).hasDefault = !v.isNone ∧
+    (parseFieldD fo true t (.value v)).ir = parseField fo t := ⟨rfl, rfl, rfl⟩
+
+/-- No default in the SDL (`Undefined`): the member gets `default=None`, `has_default=False`. -/
+theorem undefined_default_is_none (fo isIn : Bool) (t : GType) :
+    (parseFieldD fo isIn t .undefined).default = .none ∧
+    (parseFieldD fo isIn t .undefined).hasDefault = false := by
+  cases isIn <;> exact ⟨rfl, rfl⟩
+
+/-- `= null` in the SDL: the same as no default. -/
+theorem null_default_is_none (fo : Bool) (t : GType) :
+    (parseFieldD fo true t (.value .none)).default = .none ∧
+    (parseFieldD fo true t (.value .none)).hasDefault = false := ⟨rfl, rfl⟩
+
+/-- Fields of object and interface types never get a default. -/
+theorem output_field_has_no_default (fo : Bool) (t : GType) (d : DefaultValue) :
+    (parseFieldD fo false t d).default = .none ∧ (parseFieldD fo false t d).hasDefault = false :=
+  ⟨rfl, rfl⟩
+
+/-- What the member shows: a nullable input field (and every input field under force-optional) shows
+exactly the SDL default, `None` when there is none or it is `null`; a required member shows no default. -/
+theorem member_default_mirrors_sdl (fo : Bool) (t : GType) (v : PyVal) (h : (fo || !t.isNonNull) = true) :
+    (parseFieldD fo true t (.value v)).memberDefault = some v ∧
+    (parseFieldD fo true t .undefined).memberDefault = some .none := by
+  have hr : (parseField fo t).required = false := by
+    cases fo with
+    | true => rfl
+    | false =>
+      rw [required_iff_nonnull]
+      simpa using h
+  simp [FieldD.memberDefault, parseFieldD, hr, getDefault]
+
+theorem member_default_required (t : GType) (d : DefaultValue) (h : t.isNonNull = true) :
+    (parseFieldD false true t d).memberDefault = none := by
+  simp [FieldD.memberDefault, parseFieldD, required_iff_nonnull, h]
+
+/-- Why `default_value or None` is NOT `_get_default`: Python's `or` keeps a value exactly when it is
+truthy, so the shortcut agrees with the function on the truthy values and on `None`, and on nothing else:
+every falsy default other than `None` is lost. -/
+theorem or_none_agrees_iff_truthy_or_none (v : PyVal) :
+    (if v.truthy then v else PyVal.none) = getDefault true (.value v) ↔ (v.truthy = true ∨ v.isNone = true) := by
+  cases hv : v.truthy
+  · cases v <;> simp_all [getDefault, PyVal.isNone]
+  · simp [getDefault]
+
+/-- non-vacuity: the six falsy defaults of GraphQL are not `None`, are falsy, and are preserved -/
+example :
+    [PyVal.int 0, .float "0.0".toList, .bool false, .str [], .list [], .dict []].all
+      (fun v => !v.truthy && !v.isNone && !(parseFieldD false true (.named "Int".toList) (.value v)).default.isNone
+        && (parseFieldD false true (.named "Int".toList) (.value v)).hasDefault) = true := by
+  decide
+
 /-! ### generated tables (re-checked by the kernel against the code on every run) -/
 
 /-- the Python type whose JSON values are those of the predefined GraphQL scalar (authored, from the
